@@ -531,6 +531,244 @@ Proof.
     destruct t as [[]|], d as [[]|], m as [[]|]; reflexivity.
 Qed.
 
+(* ---------- resolution histories on one Config ---------- *)
+Lemma step_networks : forall e c s, flagged s = true ->
+  c_eth (h_cfg (hstep_run e c s)) = net_eth (fst (step_select s)) /\
+  c_btc (h_cfg (hstep_run e c s)) = net_btc (fst (step_select s)).
+Proof.
+  intros e c s Hf. destruct s as [f|f k|i]; unfold flagged, step_select in *; simpl in *.
+  - unfold step_select. simpl. destruct f as [|m t d]; [discriminate|].
+    destruct (select_network t d) as [n er]. split; reflexivity.
+  - unfold step_select. simpl. destruct f as [|m t d]; [discriminate|].
+    destruct (select_network t d) as [n er]. simpl.
+    destruct er; [split; reflexivity|].
+    destruct (resolve_peers _ _ _); try (split; reflexivity).
+    destruct (resolve_electrum _ _ _ _); split; reflexivity.
+  - destruct (read_config_networks i) as [He [Hb _]]. rewrite He, Hb.
+    unfold networks. destruct (i_flags i) as [|m t d]; [discriminate|].
+    destruct (select_network t d) as [n er]. split; reflexivity.
+Qed.
+
+Definition obs_networks (o : hobs) : ethnet * btcnet := (c_eth (h_cfg o), c_btc (h_cfg o)).
+Definition step_networks_of (s : hstep) : ethnet * btcnet :=
+  (net_eth (fst (step_select s)), net_btc (fst (step_select s))).
+
+(* history = map: the networks after every step are a function of THAT step's selection alone *)
+Lemma hist_networks_are_map : forall e steps c0, forallb flagged steps = true ->
+  map obs_networks (run_hist e c0 steps) = map step_networks_of steps.
+Proof.
+  intros e steps. induction steps as [|s rest IH]; intros c0 H; simpl in *; [reflexivity|].
+  apply andb_true_iff in H as [Hs Hr]. f_equal; [|apply IH; exact Hr].
+  unfold obs_networks, step_networks_of. destruct (step_networks e c0 s Hs) as [A B]. rewrite A, B. reflexivity.
+Qed.
+
+Lemma last_cons_default : forall (A : Type) (l : list A) (x d d' : A), last (x :: l) d = last (x :: l) d'.
+Proof. induction l as [|y l IH]; intros x d d'; [reflexivity|]. change (last (y :: l) d = last (y :: l) d'). apply IH. Qed.
+
+Lemma run_hist_app : forall e a b c0,
+  run_hist e c0 (a ++ b) = run_hist e c0 a ++ run_hist e (last (map h_cfg (run_hist e c0 a)) c0) b.
+Proof.
+  intros e a. induction a as [|s rest IH]; intros b c0; simpl; [reflexivity|].
+  f_equal. rewrite IH. f_equal. f_equal.
+  destruct (run_hist e (h_cfg (hstep_run e c0 s)) rest) eqn:E; [reflexivity|].
+  simpl map. apply last_cons_default.
+Qed.
+
+(* the last selection decides BOTH networks, whatever the Config held and whatever came before *)
+Lemma last_selection_wins : forall e c0 steps s, flagged s = true ->
+  forall o, last (run_hist e c0 (steps ++ [s])) o =
+            hstep_run e (last (map h_cfg (run_hist e c0 steps)) c0) s /\
+  obs_networks (last (run_hist e c0 (steps ++ [s])) o) = step_networks_of s.
+Proof.
+  intros e c0 steps s Hf o. rewrite run_hist_app. simpl.
+  assert (L : forall (l : list hobs) x d, last (l ++ [x]) d = x).
+  { induction l as [|a l IH]; intros; simpl; [reflexivity|]. destruct (l ++ [x]) eqn:E.
+    - destruct l; discriminate. - rewrite <- E. apply IH. }
+  rewrite L. split; [reflexivity|].
+  unfold obs_networks, step_networks_of.
+  destruct (step_networks e (last (map h_cfg (run_hist e c0 steps)) c0) s Hf) as [A B]. rewrite A, B. reflexivity.
+Qed.
+
+(* a pre-populated (or earlier resolved) network pair has no influence on a step *)
+Lemma prepopulated_networks_overwritten : forall e c eth btc s, flagged s = true ->
+  hstep_run e {| c_eth := eth; c_btc := btc; c_peers := c_peers c; c_electrum := c_electrum c;
+                 c_contracts := c_contracts c |} s = hstep_run e c s.
+Proof.
+  intros e c eth btc s Hf. destruct s as [f|f k|i]; unfold hstep_run; simpl; try reflexivity.
+Qed.
+
+Lemma peers_ok_same : forall p d, peers_ok p p d = true.
+Proof. intros [|x p] d; simpl; [reflexivity|]. rewrite N.eqb_refl. apply list_eqb_refl. Qed.
+Lemma electrum_ok_same : forall u d, electrum_ok u u d = true.
+Proof. intros u d. unfold electrum_ok. destruct (N.eqb u 0) eqn:E; simpl; [reflexivity|apply N.eqb_refl]. Qed.
+Lemma contracts_ok_same : forall xs defs, (length xs <= length defs)%nat -> contracts_ok xs xs defs = true.
+Proof.
+  induction xs as [|x xs IH]; intros [|d ds] H; simpl in *; try reflexivity; try lia.
+  rewrite IH by lia. destruct (N.eqb x 0) eqn:E; simpl; [|rewrite N.eqb_refl]; reflexivity.
+Qed.
+Lemma contracts_ok_model : forall defs xs, (length xs <= length defs)%nat ->
+  contracts_ok xs (resolve_contracts defs xs) defs = true.
+Proof. intros. apply contracts_ok_sound. apply contracts_prop_model. assumption. Qed.
+Lemma resolve_peers_ok : forall e n p l, resolve_peers e n p = POk l ->
+  peers_ok p l (if has_defaults n then e_peers e n else None) = true.
+Proof.
+  intros e n p l H. destruct model_passes_unit_specs as [U _]. specialize (U e n p). rewrite H in U.
+  simpl in U. apply andb_true_iff in U as [U _]. exact U.
+Qed.
+Lemma resolve_electrum_ok : forall e k n u v, env_wfb e = true ->
+  resolve_electrum e k (net_btc n) u = UOk v ->
+  electrum_ok u v (if has_defaults n then e_urls e (net_btc n) else None) = true.
+Proof.
+  intros e k n u v Hwf H. destruct model_passes_unit_specs as [_ [U _]].
+  specialize (U e k (net_btc n) u Hwf). rewrite H in U. specialize (U k). simpl in U.
+  apply andb_true_iff in U as [U _]. destruct n; exact U.
+Qed.
+Lemma spec_nets_model : forall m t d b, (snd (select_network t d) = true -> b = true) ->
+  spec_nets (FSet m t d) (Some (fst (select_network t d), b,
+                                net_eth (fst (select_network t d)), net_btc (fst (select_network t d)))) = true.
+Proof.
+  intros m t d b H. destruct t as [[]|], d as [[]|], m as [[]|], b; simpl in *; try reflexivity;
+  specialize (H eq_refl); discriminate.
+Qed.
+
+Lemma nets_error_first : forall i, snd (fst (fst (networks i))) = true -> o_err (read_config i) = EResolveNetworks.
+Proof. intro i. unfold read_config. destruct (networks i) as [[[n nerr] eth] btc]. simpl. intros ->. reflexivity. Qed.
+
+Lemma out_of_read : forall i, i_cobra i = false ->
+  out_of {| h_net := NUnknown; h_err := o_err (read_config i); h_cfg := cfg_of (read_config i) |} = read_config i.
+Proof.
+  intros i Hc. destruct (read_config_networks i) as [_ [_ Hr]]. unfold refused in Hr. rewrite Hc in Hr.
+  simpl in Hr. unfold out_of, cfg_of. simpl. destruct (read_config i). simpl in *. subst. reflexivity.
+Qed.
+
+Lemma read_config_contracts_length : forall i, length (i_contracts i) = length (e_contracts (i_env i)) ->
+  length (o_contracts (read_config i)) = length (e_contracts (i_env i)).
+Proof.
+  intros i H. unfold read_config. destruct (networks i) as [[[n nerr] eth] btc].
+  assert (R : length (resolve_contracts (e_contracts (i_env i)) (map (explicit i 0) (i_contracts i)))
+              = length (e_contracts (i_env i))).
+  { rewrite resolve_contracts_length; rewrite map_length; [exact H | apply Nat.eq_le_incl; exact H]. }
+  destruct nerr; simpl; [rewrite map_length; exact H|].
+  destruct (i_file i); simpl; try (rewrite map_length; exact H);
+  (destruct (resolve_peers _ _ _); simpl; try exact R; destruct (resolve_electrum _ _ _ _); simpl; exact R).
+Qed.
+
+Lemma hstep_model_ok : forall e c s, env_wfb e = true -> hstep_wfb e s = true ->
+  length (c_contracts c) = length (e_contracts e) ->
+  hstep_ok e c s (hstep_run e c s) = true /\
+  length (c_contracts (h_cfg (hstep_run e c s))) = length (e_contracts e).
+Proof.
+  intros e c s Hwf Hs Hlen. unfold hstep_wfb in Hs. apply andb_true_iff in Hs as [Hfl Hs].
+  destruct s as [f|f k|i].
+  - unfold flagged in Hfl. simpl in Hfl. destruct f as [|m t d]; [discriminate|].
+    unfold hstep_run, hstep_ok, step_select. simpl flags_of. cbv iota.
+    pose proof (spec_nets_model m t d) as SN.
+    destruct (select_network t d) as [n er]. simpl in SN. simpl h_net. simpl h_err. simpl h_cfg.
+    split; [|exact Hlen]. apply andb_true_iff. split.
+    + destruct er; [exact (SN true (fun _ => eq_refl)) | exact (SN false ltac:(discriminate))].
+    + destruct er; simpl; [reflexivity|]. unfold state_values_ok. simpl.
+      rewrite peers_ok_same, electrum_ok_same, contracts_ok_same by lia. reflexivity.
+  - unfold flagged in Hfl. simpl in Hfl. destruct f as [|m t d]; [discriminate|].
+    unfold hstep_run, hstep_ok, step_select. simpl flags_of. cbv iota.
+    pose proof (spec_nets_model m t d) as SN.
+    destruct (select_network t d) as [n er]. simpl in SN.
+    assert (RL : length (resolve_contracts (e_contracts e) (c_contracts c)) = length (e_contracts e)).
+    { rewrite resolve_contracts_length; lia. }
+    destruct er; simpl.
+    { split; [|exact Hlen]. rewrite andb_true_r. exact (SN true (fun _ => eq_refl)). }
+    destruct (resolve_peers e n (c_peers c)) as [p'| |] eqn:Hp; simpl.
+    + destruct (resolve_electrum e k (net_btc n) (c_electrum c)) as [u'| |] eqn:Hu; simpl.
+      * split; [|exact RL]. apply andb_true_iff. split; [exact (SN false ltac:(discriminate))|].
+        unfold state_values_ok. simpl.
+        rewrite (resolve_peers_ok _ _ _ _ Hp), (resolve_electrum_ok _ _ _ _ _ Hwf Hu).
+        rewrite contracts_ok_model by lia. reflexivity.
+      * split; [|exact RL]. rewrite andb_true_r. exact (SN false ltac:(discriminate)).
+      * split; [|exact RL]. rewrite andb_true_r. exact (SN false ltac:(discriminate)).
+    + split; [|exact RL]. rewrite andb_true_r. exact (SN false ltac:(discriminate)).
+    + split; [|exact RL]. rewrite andb_true_r. exact (SN false ltac:(discriminate)).
+  - rewrite !andb_true_iff in Hs. destruct Hs as [[[Hc Hwfi] Hli] Hce].
+    apply negb_true_iff in Hc. apply Nat.eqb_eq in Hli. apply list_eqb_eq in Hce.
+    assert (Hhf : has_flags i = true).
+    { unfold flagged in Hfl. simpl in Hfl. unfold has_flags. destruct (i_flags i); [discriminate|reflexivity]. }
+    split.
+    2:{ simpl. rewrite <- Hce. apply read_config_contracts_length. exact Hli. }
+    unfold hstep_ok, hstep_run. rewrite (out_of_read i Hc). simpl h_err. rewrite Hhf. simpl.
+    destruct (reached (o_err (read_config i))) eqn:Hr.
+    + pose proof (model_passes_spec i Hwfi Hli (selected i) 0%nat (or_introl eq_refl)) as M.
+      unfold spec_read in M. rewrite Hr in M. apply andb_true_iff in M as [_ M].
+      apply andb_true_iff in M as [M _]. exact M.
+    + destruct (nets_stage (o_err (read_config i))) eqn:Hn; [|reflexivity].
+      apply existsb_exists. exists (selected i). split.
+      * apply selected_in_candidates. destruct (snd (fst (fst (networks i)))) eqn:E; [|reflexivity].
+        rewrite (nets_error_first i E) in Hn. discriminate.
+      * unfold nets_ok. destruct (networks_follow_selection i) as [F _]. destruct (F Hhf) as [A B].
+        unfold has_flags in Hhf. destruct (i_flags i); [discriminate|].
+        rewrite A, B. apply andb_true_iff. split; [apply eth_eqb_eq|apply btc_eqb_eq]; reflexivity.
+Qed.
+
+Lemma model_history_passes_spec : forall e steps c0, env_wfb e = true ->
+  forallb (hstep_wfb e) steps = true -> length (c_contracts c0) = length (e_contracts e) ->
+  hist_ok e c0 steps (run_hist e c0 steps) = true.
+Proof.
+  intros e steps. induction steps as [|s rest IH]; intros c0 Hwf Hs Hl; simpl in *; [reflexivity|].
+  apply andb_true_iff in Hs as [H1 H2].
+  destruct (hstep_model_ok e c0 s Hwf H1 Hl) as [A B]. rewrite A. simpl. apply IH; assumption.
+Qed.
+
+Lemma hstep_ok_sound : forall e pre s o, hstep_ok e pre s o = true -> hstep_prop e pre s o.
+Proof.
+  intros e pre s o H.
+  assert (NR : forall f, spec_nets f (Some (h_net o, err_eqb (h_err o) EResolveNetworks, c_eth (h_cfg o), c_btc (h_cfg o)))
+                 && (if reached (h_err o) then state_values_ok e (h_net o) pre (h_cfg o) else true) = true ->
+               c_eth (h_cfg o) = net_eth (h_net o) /\ c_btc (h_cfg o) = net_btc (h_net o) /\
+               (h_err o <> EResolveNetworks -> In (h_net o) (candidates_of f)) /\
+               (reached (h_err o) = true ->
+                  peers_prop (c_peers pre) (c_peers (h_cfg o)) (if has_defaults (h_net o) then e_peers e (h_net o) else None) /\
+                  electrum_prop (c_electrum pre) (c_electrum (h_cfg o))
+                                (if has_defaults (h_net o) then e_urls e (net_btc (h_net o)) else None) /\
+                  contracts_prop (c_contracts pre) (c_contracts (h_cfg o)) (e_contracts e))).
+  { intros f Hf. apply andb_true_iff in Hf as [H1 H2]. destruct f as [|m t d]; [discriminate|].
+    destruct unit_specs_sound as [_ [_ U]]. destruct (U _ _ _ _ _ _ _ H1) as [A [B C]].
+    split; [exact A|]. split; [exact B|]. split.
+    - intro Hne. apply C. destruct (err_eqb (h_err o) EResolveNetworks) eqn:E; [|reflexivity].
+      apply err_eqb_eq in E. contradiction.
+    - intro Hr. rewrite Hr in H2. unfold state_values_ok in H2. rewrite !andb_true_iff in H2.
+      destruct H2 as [[P1 P2] P3]. split; [apply peers_ok_sound; exact P1|].
+      split; [apply electrum_ok_sound; exact P2 | apply contracts_ok_sound; exact P3]. }
+  destruct s as [f|f k|i]; simpl in *; try (apply NR; exact H).
+  apply andb_true_iff in H as [Hhf H]. split; [exact Hhf|]. intro Hn.
+  assert (NP : forall n, nets_ok i n (out_of o) = true -> c_eth (h_cfg o) = net_eth n /\ c_btc (h_cfg o) = net_btc n).
+  { intros n Hk. unfold nets_ok in Hk. unfold has_flags in Hhf. destruct (i_flags i); [discriminate|].
+    apply andb_true_iff in Hk as [A B]. apply eth_eqb_eq in A. apply btc_eqb_eq in B. split; assumption. }
+  destruct (reached (h_err o)) eqn:Hr.
+  - apply existsb_exists in H. destruct H as [n [Hin Hk]]. apply andb_true_iff in Hk as [K1 K2].
+    exists n. split; [exact Hin|]. destruct (NP n K1) as [A B]. split; [exact A|]. split; [exact B|].
+    intros _. unfold values_ok in K2. rewrite !andb_true_iff in K2. destruct K2 as [[P1 P2] P3].
+    split; [apply peers_ok_sound; exact P1|].
+    split; [apply electrum_ok_sound; exact P2 | apply contracts_ok_sound; exact P3].
+  - rewrite Hn in H. apply existsb_exists in H. destruct H as [n [Hin K1]].
+    exists n. split; [exact Hin|]. destruct (NP n K1) as [A B]. split; [exact A|]. split; [exact B|].
+    intro; discriminate.
+Qed.
+
+Lemma hist_ok_sound : forall e steps obs c0, hist_ok e c0 steps obs = true ->
+  length obs = length steps /\
+  forall k s o, nth_error steps k = Some s -> nth_error obs k = Some o ->
+    hstep_prop e (match k with O => c0 | S j => match nth_error obs j with Some p => h_cfg p | None => c0 end end) s o.
+Proof.
+  intros e steps. induction steps as [|s rest IH]; intros [|o obs] c0 H; simpl in H; try discriminate.
+  - split; [reflexivity|]. intros [|k]; discriminate.
+  - apply andb_true_iff in H as [H1 H2]. destruct (IH obs (h_cfg o) H2) as [L R].
+    split; [simpl; congruence|]. intros [|k] s' o' Hs Ho.
+    + simpl in *. inversion Hs; inversion Ho; subst. apply hstep_ok_sound. exact H1.
+    + change (nth_error rest k = Some s') in Hs. change (nth_error obs k = Some o') in Ho.
+      specialize (R k s' o' Hs Ho). destruct k as [|j]; [exact R|].
+      change (hstep_prop e (match nth_error obs j with Some p => h_cfg p | None => c0 end) s' o').
+      destruct (nth_error obs j) eqn:E; [exact R|].
+      apply nth_error_None in E. assert (N0 : nth_error obs (S j) = None) by (apply nth_error_None; lia).
+      congruence.
+Qed.
+
 (* ---------- the hypotheses are satisfiable, the statements are not vacuous ---------- *)
 Definition ex_env : env :=
   {| e_peers := net4 None (Some [1; 2]) (Some [3]) None;
@@ -572,3 +810,21 @@ Example ex_developer_and_ambiguous :
   = {| o_err := ENone; o_refused := true; o_eth := ESepolia; o_btc := BTestnet;
        o_peers := [3]; o_electrum := 6; o_contracts := [7; 0] |}.
 Proof. vm_compute. split; reflexivity. Qed.
+
+(* a history on one pre-populated Config (Ethereum mainnet with Bitcoin regtest, explicit peers):
+   --testnet (networks only), then --developer (resolution stage), then ReadConfig without a
+   network flag: the hypotheses of the history theorems hold and every step follows its own
+   selection; the explicit peers survive the first two steps *)
+Example ex_history :
+  let c0 := {| c_eth := EMainnet; c_btc := BRegtest; c_peers := [40]; c_electrum := 0; c_contracts := [0; 41] |} in
+  let i := {| i_env := ex_env; i_flags := FSet (Some false) (Some false) (Some false); i_cobra := false;
+              i_file := FNone; i_peers := none_src; i_electrum := none_src; i_contracts := [none_src; none_src];
+              i_ethurl := none_src; i_keyfile := none_src; i_storage := none_src; i_port := none_src;
+              i_validate := false; i_pick := 0 |} in
+  let steps := [HNets (FSet (Some false) (Some true) (Some false));
+                HResolve (FSet (Some false) (Some false) (Some true)) 0; HRead i] in
+  env_wfb ex_env = true /\ forallb (hstep_wfb ex_env) steps = true /\
+  map obs_networks (run_hist ex_env c0 steps) = [(ESepolia, BTestnet); (EDeveloper, BRegtest); (EMainnet, BMainnet)] /\
+  map (fun o => c_peers (h_cfg o)) (run_hist ex_env c0 steps) = [[40]; [40]; [1; 2]] /\
+  hist_ok ex_env c0 steps (run_hist ex_env c0 steps) = true.
+Proof. vm_compute. repeat split. Qed.
